@@ -79,6 +79,15 @@ class MementoFunctionType(ABC):
     auto_dependencies = None  # type: bool
     explicit_version = None  # type: Optional[str]
 
+    def refresh_code_hash(self) -> None:
+        """
+        Bring `code_hash` up to date, if it is computed from the function itself. The code hash
+        covers the values of the function's default parameters, which are objects that can
+        change after the function was defined.
+
+        """
+        pass
+
     @abstractmethod
     def hash_rules(self) -> List:
         pass
